@@ -75,6 +75,28 @@ def u_stop_now(ip):
     c.oblige("continue_is_negation", c.as_bool(r2) == Not(spec))
 
 
+@unit("C20.continue_with_plain_integers", "C20", [f"{OPT}::Stopper.stop_now", f"{OPT}::Stopper.continue_"], float_mode="fp32",
+      summaries=[f"{OPT}::Stopper.stop_early (proved by C20.stop_early)"],
+      assumptions=["max_iter 6, patience in {2, 6} (1 <= patience <= max_iter), i a plain Python int 0..5 (the signature documents `i: int | Array`), arbitrary loss history; S: `~` on a Python bool is "
+                   "bitwise (~True == -2), on an array / traced value it is the logical negation"])
+def u_continue_plain(ip):
+    """continue_ is the negation of stop_now also when the iteration counter is a plain Python int (a hand-written optimisation loop):
+    at the iteration limit it says stop, whatever patience is configured."""
+    c = ip.ctx
+    ip.summaries[f"{OPT}::Stopper.stop_early"] = stop_early_contract
+    for p in (2, 6):
+        st = new_obj(ip, f"{OPT}::Stopper", max_iter=6, patience=p, atol=c.fresh("atol", FP32), rtol=c.fresh("rtol", FP32))
+        h = SSeq(f"loss_p{p}", None, FP32)
+        c.assume(h.length == 6)
+        for i in range(6):
+            sn = ip.truth(ip.call(method(ip, st, "stop_now"), [], {"i": i, "loss_history": h}))
+            co = ip.truth(ip.call(method(ip, st, "continue_"), [], {"i": i, "loss_history": h}))
+            tz = lambda v: z3.BoolVal(v) if isinstance(v, bool) else v  # noqa: E731
+            c.oblige(f"continue_is_negation_of_stop_now.patience{p}.i{i}", tz(co) == Not(tz(sn)))
+            if i == 5:
+                c.oblige(f"stops_at_the_iteration_limit.patience{p}", tz(co) == z3.BoolVal(False))
+
+
 @unit("C20.which_best", "C20", [f"{OPT}::Stopper.which_best_in_recent_history"], float_mode="fp32")
 def u_which_best(ip):
     """which_best(i, h) = (i-p+1) + argmin(h[i-p+1 .. i]) whenever the window lies inside the history
